@@ -4,12 +4,16 @@ C04 — concurrent clients: every interleaving is equivalent to a serial order. 
 Scope of the theorems: TWO concurrent RPCs on one study drawn from the RPCs whose datastore calls
 all sit inside the study lock (CompleteTrial, AddTrialMeasurement, StopTrial, CreateTrial,
 UpdateMetadata, SetStudyState) — `c04_shape_study_lock_rpcs` checks that on the current source.
-Granularity: the unguarded study check and the critical section (atomic by mutual exclusion of
-`threading.Lock`, trusted).  Initial state, arguments: arbitrary.  SuggestTrials,
+Granularity: the unguarded study check and the critical section.  That a critical section may be
+treated as ONE atomic event is itself proved for the fine-grained semantics
+(`c04_lock_gives_atomic_sections`: two threads `acquire; op₁ … opₙ; release` with arbitrary
+operations, every schedule the lock admits ends in one of the two serial results); what stays
+trusted is that `threading.Lock` provides mutual exclusion and that one datastore call is atomic.  Initial state, arguments: arbitrary.  SuggestTrials,
 CheckTrialEarlyStoppingState, DeleteTrial, DeleteStudy, CreateStudy and three-thread interleavings
 are decided by the exhaustive schedule exploration on the real code only (stated as partial).
 -/
 import VizierModel.Lemmas.ConcInst
+import VizierModel.Lemmas.ConcLock
 
 namespace VizierModel.C04
 open VizierModel.Svc VizierModel.Conc
@@ -109,5 +113,20 @@ theorem c04_lost_update_counterexample :
     (lostRun [.readA, .writeB, .writeBackA]).md = 0 ∧
     (lostRun [.readA, .writeBackA, .writeB]).md = 7 ∧
     (lostRun [.writeB, .readA, .writeBackA]).md = 7 := by decide
+
+/-- MUTUAL EXCLUSION ⇒ ATOMICITY (the step the coarse model takes for granted).  Two threads, each
+    `acquire L; op₁; …; opₙ; release L`, the operations being ARBITRARY functions of the shared state
+    (the datastore) and the thread's local state (its request, the copies it read, its response):
+    every step-by-step schedule the lock admits that runs both threads to completion ends in the shared
+    state and the two local states of one of the two serial orders.  Any number of operations, any
+    state, any schedule. -/
+theorem c04_lock_gives_atomic_sections {σ κ : Type} (opsA opsB : List (σ → κ → σ × κ)) (s0 : σ) (kA kB : κ)
+    (sched : List Bool) (g' : ConcLock.G σ κ)
+    (h : ConcLock.run (ConcLock.section_ opsA) (ConcLock.section_ opsB)
+      { sh := s0, holder := none, a := ⟨0, kA⟩, b := ⟨0, kB⟩ } sched = some g')
+    (hA : g'.a.pc = opsA.length + 2) (hB : g'.b.pc = opsB.length + 2) :
+    (g'.sh, g'.a.loc, g'.b.loc) = ConcLock.serialAB opsA opsB s0 kA kB ∨
+    (g'.sh, g'.a.loc, g'.b.loc) = ConcLock.serialBA opsA opsB s0 kA kB :=
+  ConcLock.critical_sections_atomic opsA opsB s0 kA kB sched g' h hA hB
 
 end VizierModel.C04
